@@ -331,7 +331,7 @@ func checkAddress(c *Case, root *Node, presented types.SpendPolicy, memo addrMem
 		if a := uc.UnlockHash(); a != ref {
 			return stats.Failf("C14/address", "UnlockHash(%s) = %v, reference %v", short(root), a, ref)
 		}
-		if root.U == 0 && root.Req == 1 && len(root.Keys) == 1 && root.Keys[0].A == "ed" {
+		if root.U == 0 && root.Req == 1 && len(root.Keys) == 1 && root.Keys[0].A == "ed" && root.Keys[0].L == 0 {
 			if a := types.StandardUnlockHash(pubKey(root.Keys[0].I)); a != ref {
 				return stats.Failf("C14/address", "StandardUnlockHash = %v, reference %v", a, ref)
 			}
